@@ -18,8 +18,8 @@ LEVEL_NOTE = ("Layered: the refractive indices n_p, n_s, n_i (beam.refractive_in
               "The S predicates recompute wave vectors from first principles (own direction formula, CrystalSetup::index_along, "
               "n ω / c). Counter-propagation and backward signal angles (|θs| > π/2) are tied by K only (outside the statement's "
               "quantifier).")
-OPS = {"opt_idler", "delta_k", "k_eff", "wavevector"}
-TOL = {"opt_idler": ("ulp", 4), "delta_k": ("rel", 1e-12, 1e-8), "k_eff": ("ulp", 2), "wavevector": ("ulp", 4)}
+OPS = {"opt_idler", "delta_k", "k_eff", "dk_wavevector"}
+TOL = {"opt_idler": ("ulp", 4), "delta_k": ("rel", 1e-12, 1e-8), "k_eff": ("ulp", 2), "dk_wavevector": ("ulp", 4)}
 DEFAULT_TOL = ("exact",)
 RULE = ("family dk: 11 crystals × 5 PM types × crystal θ ∈ [0,π/2] (plus {0, π/2, any}) × φ × T 0–100 °C × in-window pump/signal "
         "wavelengths with idler in-window (¼ degenerate) × |θs| ≤ 0.3 (incl. 0 and log-small; 1/5 negative, own signatures) × φs × "
